@@ -173,9 +173,19 @@ def run(case):
         tags.append("badlen:first" if i == 0 else "badlen:other")
         fs2 = list(fs)
         fs2[i] = field(kinds[i], i, L + d)
+        lens2 = [L] * k
+        lens2[i] = L + d
+        for j_, d_ in (case.get("more") or []):
+            # several fields deviate at once -- in ways that may cancel in a sum, a mean, a min/max or a set of two values
+            if 0 <= j_ < k and j_ != i and L + d_ >= 0:
+                fs2[j_] = field(kinds[j_], j_, L + d_)
+                lens2[j_] = L + d_
+                tags.append("badlen:several")
+        if len(set(lens2)) == 1:
+            return undefined("the deviations left all fields equally long", tags)
         a = attempt(lambda: C(*fs2))
         if a.ok:
-            return violated("construction with field %d of length %d and the others of length %d was accepted" % (i, L + d, L), tags)
+            return violated("construction with fields of lengths %s was accepted" % (lens2,), tags)
         return held(tags, nontrivial)
     c = attempt(lambda: C(*[f.copy() for f in fs]))
     if not c.ok:
@@ -335,6 +345,12 @@ def gen_case(rng, tier, op=None, k=None, L=None):
         if k < 2:
             c["kinds"] = kinds = kinds + ["1d"]
         c.update(which=rng.randrange(len(kinds)), delta=rng.choice([1, 2, -1]) if L > 0 else rng.choice([1, 2]))
+        if rng.random() < 0.4:
+            while len(c["kinds"]) < 3:
+                c["kinds"] = kinds = c["kinds"] + [rng.choice(["1d", "f"])]
+            others = [j for j in range(len(kinds)) if j != c["which"]]
+            j_ = rng.choice(others)
+            c["more"] = [[j_, -c["delta"]]] if rng.random() < 0.6 else [[j_, c["delta"]]] + ([[o_, -c["delta"]] for o_ in others if o_ != j_][:1])
     elif op == "idx":
         ik = rng.choice(["int", "slice", "list", "mask", "boollist", "emptylist", "range"])
         if ik == "int" and L == 0:
@@ -393,6 +409,11 @@ def directed():
         for d_ in (1, -1, 2):
             for w_ in (0, 1):
                 yield {"op": "badlen", "kinds": ["1d", "1d"], "L": L_, "which": w_, "delta": d_}
+                if L_ >= abs(d_):
+                    # three and four fields whose lengths differ although their sum / mean / extremes look regular: (L+d, L-d, L), (L-d, L+d, L, L), (L+d, L+d, L-d ...)
+                    yield {"op": "badlen", "kinds": ["1d", "1d", "f"], "L": L_, "which": w_ % 3, "delta": d_, "more": [[(w_ + 1) % 3, -d_]]}
+                    yield {"op": "badlen", "kinds": ["1d", "f", "1d", "1d"], "L": L_, "which": 1, "delta": d_, "more": [[3, -d_]]}
+                    yield {"op": "badlen", "kinds": ["1d", "1d", "1d"], "L": L_, "which": 0, "delta": -d_, "more": [[2, d_]]}
     for r_ in ([-2, 0, 1], [-1, 2, 1], [-5, 0, 1], [0, 3, 1], [4, -1, -1], [-1, -6, -1], [-3, 2, 2]):
         yield {"op": "idx", "kinds": ["1d", "2d"], "L": 5, "ikind": "range", "idx": r_}
     yield {"op": "astype", "kinds": ["1d", "f", "2d"], "L": 4, "order": [2, 0]}
